@@ -20,11 +20,17 @@ import (
 // Flush returns once the server has seen everything sent before (in particular
 // an UNSUB: until then messages of other connections may still arrive); Barrier(f)
 // runs f after every message pending at the call has been handed to its
-// callback.
+// callback. With lazySub set, a SUB is asynchronous as in nats.go: QueueSubscribe only
+// buffers it, the server knows the subscription soon (the client's flusher) or at the
+// latest after a Flush round trip on that connection; until then messages published by
+// OTHER connections are not routed to it (a publish on the same connection is ordered
+// after the SUB by TCP). With foreignPublisher set, publishes through the harness's one
+// *nats.Conn value count as coming from another connection.
 
 type verifPub struct {
 	subject, reply string
 	data           []byte
+	foreign        bool // published by another connection than the subscriber's
 }
 
 type verifNatsSub struct {
@@ -38,17 +44,20 @@ type verifNatsSub struct {
 	delivered int
 	closed    bool
 	draining  bool // Drain was called
+	unknown   bool // lazySub: the server has not processed the SUB yet
 	intakeOff bool // the server has processed the UNSUB: nothing new arrives
 	wake      chan struct{}
 }
 
 type verifNatsBroker struct {
-	subs        []*verifNatsSub
-	published   []verifPub
-	status      nats.Status
-	failPublish bool
-	stallFlush  bool // PING is never answered
-	onPublish   func(p verifPub)
+	subs             []*verifNatsSub
+	published        []verifPub
+	status           nats.Status
+	failPublish      bool
+	stallFlush       bool // PING is never answered
+	lazySub          bool
+	foreignPublisher bool
+	onPublish        func(p verifPub)
 }
 
 var verifBroker *verifNatsBroker
@@ -75,6 +84,13 @@ func (b *verifNatsBroker) deliver(p verifPub) {
 		if s.closed || s.intakeOff || !verifSubjectMatch(s.subject, p.subject) {
 			continue
 		}
+		if s.unknown {
+			if p.foreign {
+				verifReach("nats-published-before-sub-reached-the-server")
+				continue
+			}
+			s.unknown = false // same connection: the SUB was written before this PUB
+		}
 		if s.queue != "" {
 			if groups[s.queue+"|"+s.subject] {
 				continue
@@ -88,7 +104,7 @@ func (b *verifNatsBroker) deliver(p verifPub) {
 
 // inject delivers a message as if some other client had published it.
 func (b *verifNatsBroker) inject(subject, reply string, data []byte) {
-	b.deliver(verifPub{subject, reply, data})
+	b.deliver(verifPub{subject, reply, data, true})
 }
 
 func (s *verifNatsSub) dispatch() {
@@ -117,7 +133,7 @@ func verifNatsPublishRequest(c *nats.Conn, subj, reply string, data []byte) erro
 	if b.failPublish {
 		return errors.New("verif: nats publish failed")
 	}
-	p := verifPub{subj, reply, append([]byte{}, data...)}
+	p := verifPub{subj, reply, append([]byte{}, data...), b.foreignPublisher}
 	b.published = append(b.published, p)
 	b.deliver(p)
 	if b.onPublish != nil {
@@ -132,6 +148,9 @@ func verifNatsSubscribe(c *nats.Conn, subj string, cb nats.MsgHandler) (*nats.Su
 
 func verifNatsQueueSubscribe(c *nats.Conn, subj, queue string, cb nats.MsgHandler) (*nats.Subscription, error) {
 	s := &verifNatsSub{handle: &nats.Subscription{Subject: subj, Queue: queue}, subject: subj, queue: queue, cb: cb}
+	if verifBroker.lazySub && verifChoice(2) == 1 {
+		s.unknown = true
+	}
 	verifBroker.subs = append(verifBroker.subs, s)
 	go s.dispatch()
 	return s.handle, nil
@@ -204,6 +223,7 @@ func verifNatsFlush(c *nats.Conn) error {
 		if s.draining || s.closed {
 			s.intakeOff = true
 		}
+		s.unknown = false
 	}
 	return nil
 }
